@@ -50,15 +50,17 @@ CInit == phase = "idle" /\ sc = [none |-> TRUE] /\ code = 0 /\ written = <<>> /\
 
 Start(s) == /\ phase \in {"idle", "final"}
             /\ phase' = "running" /\ sc' = s /\ code' = 0 /\ written' = <<>> /\ dispatched' = <<>> /\ nrecv' = 0 /\ exited' = -1
-Dispatch(p)  == phase = "running" /\ dispatched' = Append(dispatched, p) /\ UNCHANGED <<phase, sc, code, written, nrecv, exited>>
-FsWrite(p)   == phase = "running" /\ written' = Append(written, p) /\ UNCHANGED <<phase, sc, code, dispatched, nrecv, exited>>
-OutRecv      == phase = "running" /\ nrecv' = nrecv + 1 /\ UNCHANGED <<phase, sc, code, written, dispatched, exited>>
-Other        == phase = "running" /\ UNCHANGED cvars
+(* the exit event is logged just before process::exit: worker threads can still log events until the process is gone *)
+Live == phase \in {"running", "exited"}
+Dispatch(p)  == Live /\ dispatched' = Append(dispatched, p) /\ UNCHANGED <<phase, sc, code, written, nrecv, exited>>
+FsWrite(p)   == Live /\ written' = Append(written, p) /\ UNCHANGED <<phase, sc, code, dispatched, nrecv, exited>>
+OutRecv      == Live /\ nrecv' = nrecv + 1 /\ UNCHANGED <<phase, sc, code, written, dispatched, exited>>
+Other        == Live /\ UNCHANGED cvars
 (* atomic accesses to the exit status, one step each *)
-Load         == phase = "running" /\ UNCHANGED cvars
-Store(v)     == phase = "running" /\ code' = v /\ UNCHANGED <<phase, sc, written, dispatched, nrecv, exited>>
-FetchMax(v)  == phase = "running" /\ code' = Max2(code, v) /\ UNCHANGED <<phase, sc, written, dispatched, nrecv, exited>>
-CmpXchg(e, v) == phase = "running" /\ code' = (IF code = e THEN v ELSE code) /\ UNCHANGED <<phase, sc, written, dispatched, nrecv, exited>>
+Load         == Live /\ UNCHANGED cvars
+Store(v)     == Live /\ code' = v /\ UNCHANGED <<phase, sc, written, dispatched, nrecv, exited>>
+FetchMax(v)  == Live /\ code' = Max2(code, v) /\ UNCHANGED <<phase, sc, written, dispatched, nrecv, exited>>
+CmpXchg(e, v) == Live /\ code' = (IF code = e THEN v ELSE code) /\ UNCHANGED <<phase, sc, written, dispatched, nrecv, exited>>
 Exit(c)      == phase = "running" /\ exited' = c /\ phase' = "exited" /\ UNCHANGED <<sc, code, written, dispatched, nrecv>>
 Final        == phase \in {"running", "exited"} /\ phase' = "final" /\ UNCHANGED <<sc, code, written, dispatched, nrecv, exited>>
 
